@@ -88,6 +88,7 @@ RULES = {
     "R48": _get(XR, "r48_update_does_not_need_unique_buffers"),
     "R50": _get(XR, "r50_only_update_reseats_handles"),
     "R52": _get(XR, "r52_model_update_delegates"),
+    "R53": _get(XR, "r53_replace_gradient_clears"),
     "R29": _get(SR, "r29_matmul_adjoint_shapes"),
     "R31": _get(SR, "r31_reduce_last"),
     "R30": _get(GR, "r30_conv_geometry"),
@@ -116,13 +117,13 @@ PROPERTY_RULES = {
     "C04": ["R40", "R41"],
     "C05": ["R36", "R38", "R40c", "R41", "R49"],
     "C06": ["R37", "R30"],
-    "C07": ["R35", "R16"],
+    "C07": ["R35", "R16", "R32"],
     "C08": ["R1", "R2", "R3", "R4", "R7", "R50"],
     "C09": ["R8", "R9", "R10", "R5", "R24", "R47"],
-    "C10": ["R23", "R20", "R25", "R9", "R11", "R10", "R26", "R24", "R44"],
+    "C10": ["R23", "R20", "R25", "R9", "R11", "R10", "R26", "R24", "R44", "R53"],
     "C11": ["R24", "R5", "R27", "R6", "R26", "R9", "R25"],
     "C12": ["R5", "R27", "R3", "R6", "R7", "R17", "R23", "R47"],
-    "C13": ["R21", "R22", "R28", "R42", "R43", "R46", "R48"],
+    "C13": ["R21", "R22", "R28", "R42", "R43", "R46", "R48", "R53"],
     "C14": ["R21", "R28", "R22", "R20", "R24", "R23", "R42", "R43", "R9", "R46", "R52"],
     "C15": ["R34", "R30"],
     "C16": ["R16", "R3", "R17", "R41"],
